@@ -23,6 +23,10 @@ func (ck *UrlChecker) CheckFetchURL(fetchURL string) {
 	trimURL := url[len(url)-len(replaceAll(url, `^\w+://`, "")):]
 	protoLen := len(url) - len(trimURL)
 
+	// Several master sites may match, one being a subdirectory of the
+	// other. Choose the most specific of them, to be independent of the
+	// iteration order of the map.
+	bestSiteURL, bestSiteName, found := "", "", false
 	for trimSiteURL, siteName := range G.Pkgsrc.MasterSiteURLToVar {
 		if !hasPrefix(trimURL, trimSiteURL) {
 			continue
@@ -31,6 +35,13 @@ func (ck *UrlChecker) CheckFetchURL(fetchURL string) {
 			hasPrefix(ck.varname, "SITES.") {
 			continue
 		}
+		if !found || len(trimSiteURL) > len(bestSiteURL) {
+			bestSiteURL, bestSiteName, found = trimSiteURL, siteName, true
+		}
+	}
+
+	if found {
+		trimSiteURL, siteName := bestSiteURL, bestSiteName
 
 		subdir := trimURL[len(trimSiteURL):]
 		if hasPrefix(trimURL, "github.com/") {
